@@ -532,6 +532,7 @@ func newPipe(ecs bool, pcf pipeCfg) {
 	failures = map[int]*storedFailure{}
 	cuts = map[int]*storedCut{}
 	lastPurgeRemoved = ""
+	flights = map[uint64]flight{}
 }
 
 func markerRRs(owner string, qtype, class uint16, id int, alias string) []dns.RR {
@@ -814,8 +815,10 @@ func serve(route string, r reqSpec, ans *ansSpec) (out string, reply *dns.Msg, v
 		transport = &peerWriter{Writer: writer, ip: r.peer}
 	}
 	reached := false
+	inflightSeen = nil
 	terminal := middleware.HandlerFunc(func(_ context.Context, ch *middleware.Chain) {
 		reached = true
+		inflightSeen = mcache.VerifC03InflightKeys(pc)
 		if ans != nil {
 			up.nextID = ans.id
 			_ = ch.Writer.WriteMsg(up.answerWith(ch.Request.Msg(), ans))
@@ -1370,6 +1373,58 @@ func drainQueue(parts *[]string, or *string) {
 
 func hasECSOpt(r reqSpec) bool { return r.client.IsValid() }
 
+// flight is what the oracle remembers of a request seen waiting under a single-flight key.
+type flight struct {
+	labels [][]byte
+	qtype  uint16
+	class  uint16
+	cd     bool
+	client netip.Prefix
+}
+
+var (
+	flights map[uint64]flight
+	// inflightSeen: the keys with a leader while the client's own request was in the next handler
+	inflightSeen []uint64
+)
+
+// judgeFlight: two requests may wait for ONE upstream exchange only if they ask the same question in
+// the same CD partition for overlapping audiences - or if both are probes of one expired zone failure
+// that covers both names in their class (a deliberate grouping: one probe per failed zone).
+func judgeFlight(key uint64, r reqSpec) string {
+	ls, ok := r.id.n.labels()
+	if !ok {
+		return "ok"
+	}
+	// a /0 source is "no subnet information" (the shared audience), exactly as for stored scopes (oNorm)
+	now := flight{labels: ls, qtype: r.id.qtype, class: r.id.class, cd: r.id.cd, client: oNorm(r.client)}
+	was, seen := flights[key]
+	flights[key] = now
+	if !seen {
+		return "ok"
+	}
+	for _, f := range failures {
+		if f.zone && f.expired && f.class == now.class && f.class == was.class && oIsSuffix(f.labels, now.labels) && oIsSuffix(f.labels, was.labels) {
+			return "ok"
+		}
+	}
+	switch {
+	case !oLabelsFoldEq(was.labels, now.labels):
+		return "FAIL sig=pipe/dkey/one-flight-for-two-names"
+	case was.qtype != now.qtype:
+		return "FAIL sig=pipe/dkey/one-flight-for-two-types"
+	case was.class != now.class:
+		return "FAIL sig=pipe/dkey/one-flight-for-two-classes"
+	case was.cd != now.cd:
+		return "FAIL sig=pipe/dkey/one-flight-for-both-cd-partitions"
+	case ecsOn && was.client.IsValid() != now.client.IsValid():
+		return "FAIL sig=pipe/dkey/one-flight-for-a-subnet-and-everyone"
+	case ecsOn && was.client.IsValid() && !was.client.Overlaps(now.client):
+		return "FAIL sig=pipe/dkey/one-flight-for-two-audiences"
+	}
+	return "ok"
+}
+
 // strictPurge makes the purge oracle demand exactness (no over-deletion at all);
 // see notes/C03.md "Candidate finding".
 func strictPurge() bool { return os.Getenv("C03_STRICT_PURGE") != "" || strictMode() }
@@ -1792,6 +1847,48 @@ func execPipe(f []string) vlib.Res {
 		or := judge("pipe/get-"+f[2], out, r, hasECSOpt(r))
 		tags := strings.Join(append([]string{"nt", via, fmt.Sprintf("qt%d", r.id.qtype)}, judgeTags...), ",") + fl
 		return vlib.Res{Impl: out, Oracle: or, Tags: tags}
+	case "dkey": // pipe dkey <msg|wire> <ident(name,t,c,cd)> <client scope|->   a lookup; on a miss: the single-flight key it waited under
+		r := reqSpec{id: parseIdent(f[3]), client: parseScope(f[4])}
+		out, _, via := serve(f[2], r, nil)
+		judgeTags = nil
+		or := judge("pipe/dkey-"+f[2], out, r, hasECSOpt(r))
+		dk := "-"
+		switch {
+		case out != "miss":
+		case len(inflightSeen) != 1:
+			dk = fmt.Sprintf("%d-keys", len(inflightSeen))
+			or = "FAIL sig=pipe/dkey/not-exactly-one-flight-while-upstream"
+		default:
+			dk = fmt.Sprintf("%016x", inflightSeen[0])
+			if or == "ok" {
+				or = judgeFlight(inflightSeen[0], r)
+			}
+		}
+		return vlib.Res{Impl: out + " dk=" + dk, Oracle: or, Tags: "nt," + via}
+	case "rkey": // pipe rkey <ident>   Store.FailureRetryKey for the question, partition and audience (scope) given
+		id := parseIdent(f[2])
+		m := new(dns.Msg)
+		m.Question = []dns.Question{id.q()}
+		m.CheckingDisabled = id.cd
+		k, ok := mcache.VerifC03RetryKey(pc, m, id.scope)
+		if !ok {
+			return vlib.Res{Impl: "-", Oracle: "ok", Tags: "nt"}
+		}
+		// the key of a probe generation is the slot of an EXPIRED state that covers this question
+		or := "FAIL sig=pipe/rkey/probe-generation-without-expired-history"
+		rl, _ := id.n.labels()
+		for _, sf := range failures {
+			if !sf.expired {
+				continue
+			}
+			if sf.zone && oIsSuffix(sf.labels, rl) && sf.class == id.class {
+				or = "ok"
+			}
+			if !sf.zone && oLabelsFoldEq(sf.labels, rl) && sf.qtype == id.qtype && sf.class == id.class && sf.cd == id.cd && sf.scope == oNorm(id.scope) {
+				or = "ok"
+			}
+		}
+		return vlib.Res{Impl: fmt.Sprintf("%016x", k), Oracle: or, Tags: "nt"}
 	case "lbkv": // pipe lbkv <keyspec> <want ident>
 		w := parseIdent(f[3])
 		key := resolveKey(f[2], w)
